@@ -219,10 +219,10 @@ func (g *c01Gen) set(gen string, ids [][]string) ([]string, bool) {
 }
 
 func (g *c01Gen) dataset(maxPeople int) *c01Dataset {
-	d := &c01Dataset{stores: make([][]c01Entity, len(c01Schema))}
-	ids := make([][]string, len(c01Schema))
+	d := &c01Dataset{stores: make([][]c01Entity, c01Roots)}
+	ids := make([][]string, c01Roots)
 	sizes := []int{g.r.intn(maxPeople + 1), g.r.intn(6), g.r.intn(5)}
-	for st := range c01Schema {
+	for st := 0; st < c01Roots; st++ {
 		pool := c01IdPool(st)
 		var chosen []string
 		for i := 0; i < sizes[st]; i++ {
@@ -230,7 +230,8 @@ func (g *c01Gen) dataset(maxPeople int) *c01Dataset {
 		}
 		ids[st] = c01SortDedup(chosen)
 	}
-	for st, sd := range c01Schema {
+	for st := 0; st < c01Roots; st++ {
+		sd := c01Schema[st]
 		for _, id := range ids[st] {
 			e := c01Entity{id: id}
 			for _, s := range sd.syms {
@@ -255,6 +256,39 @@ func (g *c01Gen) dataset(maxPeople int) *c01Dataset {
 						path := append(append(append([]string{}, m.prefix...), m.key), k)
 						e.fields = append(e.fields, c01Field{path: path, v: g.tagValue()})
 					}
+				}
+				if g.r.chance(40) { // a nested map: <map>.sub.k
+					path := append(append(append([]string{}, m.prefix...), m.key), "sub", "k")
+					e.fields = append(e.fields, c01Field{path: path, v: g.tagValue()})
+				}
+			}
+			// child stores of this root: the entity is a member (has the sub-bucket) or not
+			for _, child := range c01ChildrenOf(st) {
+				cd := c01Cur.raw[child]
+				if !g.r.chance(55) {
+					continue
+				}
+				g.count("child-member:" + cd.name)
+				n0 := len(e.fields)
+				for _, s := range cd.syms {
+					if v, ok := g.value(s.gen, ids); ok {
+						path := append(append(append([]string{}, cd.path...), s.prefix...), s.key)
+						e.fields = append(e.fields, c01Field{path: path, v: v})
+					}
+				}
+				for _, m := range cd.maps {
+					if g.r.chance(30) {
+						continue
+					}
+					for _, k := range c01TagKeys {
+						if g.r.chance(50) {
+							path := append(append(append(append([]string{}, cd.path...), m.prefix...), m.key), k)
+							e.fields = append(e.fields, c01Field{path: path, v: g.tagValue()})
+						}
+					}
+				}
+				if len(e.fields) == n0 { // a member without a stored value: the sub-bucket exists through a nil marker
+					e.fields = append(e.fields, c01Field{path: append(append([]string{}, cd.path...), "_m"), v: c01Val{k: 'n'}})
 				}
 			}
 			d.stores[st] = append(d.stores[st], e)
@@ -281,7 +315,7 @@ func c01Catalogue(store int, dotted bool) []c01Sym {
 	for _, s := range sd.syms {
 		sym := c01Sym{name: s.name, ty: s.ty, set: s.kind == "set", linked: s.linked, ids: -1, whole: s.gen != "float"}
 		if s.kind == "id" {
-			sym.ids = store
+			sym.ids = c01RootOf(store)
 		}
 		if s.linked >= 0 {
 			sym.ids = s.linked
@@ -292,12 +326,12 @@ func c01Catalogue(store int, dotted bool) []c01Sym {
 		out = append(out, sym)
 	}
 	for _, m := range sd.maps {
-		for _, k := range append(append([]string{}, c01TagKeys...), "zz") {
+		for _, k := range append(append([]string{}, c01TagKeys...), "zz", "sub.k") {
 			out = append(out, c01Sym{name: m.name + "." + k, ty: m.ty, linked: -1, ids: -1, whole: true})
 		}
 	}
 	if dotted {
-		out = append(out, c01Dotted(store)...)
+		out = append(out, c01Dotted(c01RootOf(store))...) // a child store reaches other stores through the symbols its parent granted
 	}
 	return out
 }
